@@ -708,9 +708,43 @@ func explainedByPropagation(x, y obs, respX, respY *response) bool {
 	return false
 }
 
-// compare returns the unexplained mismatches over all underlying positions of both walks,
-// highest (shortest) positions first; explained counts the pairs excused by propagation.
-func compare(a, b *walk, ra, rb *response) (out []mismatch, explained int) {
+// comparison of the two walks of a case.
+type comparison struct {
+	a, b           *outcome
+	sameFields     bool
+	explained      int // null-vs-value pairs explained by null propagation from an extra selection
+	serviceFailure int // null-vs-value pairs explained by a fetch the service itself failed
+}
+
+// explainedByServiceFailure: the null observation belongs to a response in which a fetch
+// failed because the *service* answered an RPC with an error (or broke the entity contract):
+// every field of that fetch is null then, whatever else was selected. Only when both
+// operations ask for the same fields and report the same failures must they still agree.
+func (c *comparison) explainedByServiceFailure(x, y obs, sideX, sideY string) bool {
+	null, side := x, sideX
+	if y.val == "null" {
+		null, side = y, sideY
+	}
+	if null.val != "null" || x.val == y.val {
+		return false
+	}
+	out := c.a
+	if side == "q'" {
+		out = c.b
+	}
+	if out.fetchFailure == "" {
+		return false
+	}
+	if sideX != sideY && c.sameFields && c.a.fetchFailure == c.b.fetchFailure {
+		return false
+	}
+	return true
+}
+
+// run returns the unexplained mismatches over all underlying positions of both walks,
+// highest (shortest) positions first.
+func (c *comparison) run() (out []mismatch) {
+	a, b := c.a.walk, c.b.walk
 	us := make([]string, 0, len(a.vals))
 	for u := range a.vals {
 		us = append(us, u)
@@ -734,10 +768,10 @@ func compare(a, b *walk, ra, rb *response) (out []mismatch, explained int) {
 	for _, u := range us {
 		var all []sided
 		for _, o := range a.vals[u] {
-			all = append(all, sided{o, "q", ra})
+			all = append(all, sided{o, "q", c.a.resp})
 		}
 		for _, o := range b.vals[u] {
-			all = append(all, sided{o, "q'", rb})
+			all = append(all, sided{o, "q'", c.b.resp})
 		}
 		found := false
 		for i := 0; i < len(all) && !found; i++ {
@@ -746,7 +780,11 @@ func compare(a, b *walk, ra, rb *response) (out []mismatch, explained int) {
 					continue
 				}
 				if explainedByPropagation(all[i].o, all[j].o, all[i].resp, all[j].resp) {
-					explained++
+					c.explained++
+					continue
+				}
+				if c.explainedByServiceFailure(all[i].o, all[j].o, all[i].side, all[j].side) {
+					c.serviceFailure++
 					continue
 				}
 				out = append(out, mismatch{U: u, X: all[i].o, Y: all[j].o, SideX: all[i].side, SideY: all[j].side})
@@ -754,7 +792,7 @@ func compare(a, b *walk, ra, rb *response) (out []mismatch, explained int) {
 			}
 		}
 	}
-	return out, explained
+	return out
 }
 
 // stripIndices turns an underlying position into its field path.
